@@ -85,6 +85,23 @@ func (x *Exec) evalCall(call *ast.CallExpr, st *St, fr *Frame, k kval) {
 	}
 	if recvExpr != nil {
 		x.eval(recvExpr, st, fr, func(st *St, recv *Val) {
+			// methods promoted through embedded fields: walk the implicit field path
+			if se, ok := fun.(*ast.SelectorExpr); ok {
+				if sel := fr.info.Selections[se]; sel != nil && len(sel.Index()) > 1 {
+					curTy := fr.typeOf(recvExpr)
+					for _, ix := range sel.Index()[:len(sel.Index())-1] {
+						sty, ok := derefType(curTy).Underlying().(*types.Struct)
+						if !ok {
+							oos("promoted method through non-struct at %s", x.W.pos(call.Pos()))
+						}
+						f := sty.Field(ix)
+						recv = x.selectField(st, recv, f.Name(), nil, func(r *Term) {
+							x.safety(st, fr, Neq(r, Null), "nil", se.Sel.Pos())
+						})
+						curTy = f.Type()
+					}
+				}
+			}
 			x.evalArgs(call.Args, st, fr, func(st *St, args []*Val) {
 				x.callFunc(call, obj, recv, args, st, fr, k)
 			})
@@ -174,10 +191,8 @@ func (x *Exec) callFunc(call *ast.CallExpr, obj *types.Func, recv *Val, args []*
 	}
 	if recv != nil && recv.T != nil && recv.T.Sort == SRef {
 		// the method body dereferences the receiver; calls on nil receivers are flagged at the call site unless the callee's contract admits nil
-		if c == nil || !c.Flags["nilrecv"] {
-			if fi == nil || c != nil {
-				x.safety(st, fr, Neq(recv.T, Null), "nil", call.Lparen)
-			}
+		if fi == nil && (c == nil || !c.Flags["nilrecv"]) {
+			x.safety(st, fr, Neq(recv.T, Null), "nil", call.Lparen)
 		}
 	}
 	switch {
@@ -502,7 +517,13 @@ func (x *Exec) modTarget(m *ModItem, env *CEnv) []modTarget {
 	}
 	// Type.field... (whole field) if the root identifier is a type name and not a variable
 	if cur.Kind == "ident" {
-		if _, isVar := env.lookupName(cur.Op); !isVar {
+		isGlobal := false
+		if _, isVar := env.lookupName(cur.Op); !isVar && env.Pkg != nil {
+			if o, ok := env.Pkg.Types.Scope().Lookup(cur.Op).(*types.Var); ok && o != nil {
+				isGlobal = true
+			}
+		}
+		if _, isVar := env.lookupName(cur.Op); !isVar && !isGlobal {
 			tyText := cur.Op
 			rest := path
 			// qualified type pkg.Type
@@ -592,6 +613,13 @@ func (x *Exec) callContract(call *ast.CallExpr, c *Contract, obj *types.Func, fi
 		if i < len(pnames) && pnames[i] != "_" {
 			pt := sig.Params().At(min(i, sig.Params().Len()-1)).Type()
 			names[pnames[i]] = x.coerce(st, a, fr.subst(pt))
+		}
+	}
+	for pn, proto := range c.ParamProto {
+		if v, ok := names[pn]; ok && v != nil && v.Proto != proto {
+			pos := x.W.pos(call.Pos())
+			x.emit(st, oblTemplate{kind: "proto", label: pn, pos: pos, clause: "argument " + pn + " obeys protocol " + proto,
+				name: x.Fn.Key + "/call#" + c.Key + "/proto#" + pn}, nil, False)
 		}
 	}
 	var pkg = x.Fn.Pkg
